@@ -352,9 +352,14 @@ def run_run(case):
         den = np.maximum(np.linalg.norm(A, axis=1), 1e-20)
         mism = float((np.linalg.norm(A_ref - A, axis=1) / den).max())
         res.residual("stored_mismatch_over_tol", mism / case["tol"])
+        if not np.isfinite(mism) or float(np.abs(A).max()) > 1e100:
+            # an accepted step whose stored potential is beyond the floating-point range of its own norm: the iteration diverged (D38)
+            res.violate("diverged-step-accepted", step_size=AB[case["ab"]][0], step_drag=AB[case["ab"]][1],
+                        detail={"case": case, "label": int(fr["attrs"]["step"]), "max_abs_A": float(np.abs(A).max())})
+            break
         if mism > TOLERANCES["stored_multiple"] * case["tol"]:
             res.violate("stored-potential-not-self-consistent", step_size=AB[case["ab"]][0], step_drag=AB[case["ab"]][1],
-                        under_damped=bool(AB[case["ab"]][1] <= 0.5 and AB[case["ab"]] != (0.1, 0.5)),
+                        under_damped=bool(AB[case["ab"]][1] <= 0.5 and AB[case["ab"]] != (0.1, 0.5) and case["ab"] not in DIVERGENT),
                         detail={"case": case, "label": int(fr["attrs"]["step"]), "mismatch": mism, "tol": case["tol"]})
             break
     res.outcome = f"run;{'raised' if raised else 'completed'};maxit={case['maxit']}"
